@@ -216,7 +216,7 @@ def _model_case(case):
             # spline interpolation of the same integer samples
             tol = 1.0 / up + 0.1
             mech = None
-            if dist > tol and dist <= 1.0 and name in ("FSC", "PCC") and up > 1 and all(float(m).is_integer() for m in M):
+            if dist > tol and dist <= 1.5 and name in ("FSC", "PCC") and up > 1 and all(float(m).is_integer() for m in M):
                 # open finding: an up-sampled landscape is a global cubic spline through the integer-shift samples,
                 # while align refines by other means (FSC: local spline around the best integer sample; PCC: Fourier
                 # up-sampling).  On small boxes with a wedge the two disagree by more than a sample.  Signature: the
